@@ -327,6 +327,14 @@ fn fresh_replay(path: &Path, timeout: Duration) -> Result<Option<(String, String
         .spawn()
         .map_err(|e| e.to_string())?;
     let start = Instant::now();
+    // (drain the pipe while waiting: a verdict can be longer than a pipe holds)
+    let mut pipe = child.stdout.take().unwrap();
+    let reader = std::thread::spawn(move || {
+        use std::io::Read;
+        let mut s = Vec::new();
+        let _ = pipe.read_to_end(&mut s);
+        String::from_utf8_lossy(&s).into_owned()
+    });
     loop {
         match child.try_wait() {
             Ok(Some(_)) => break,
@@ -341,14 +349,7 @@ fn fresh_replay(path: &Path, timeout: Duration) -> Result<Option<(String, String
             Err(e) => return Err(e.to_string()),
         }
     }
-    let mut s = String::new();
-    use std::io::Read;
-    child
-        .stdout
-        .take()
-        .unwrap()
-        .read_to_string(&mut s)
-        .map_err(|e| e.to_string())?;
+    let s = reader.join().map_err(|_| "reader thread".to_string())?;
     let st = child.wait().map_err(|e| e.to_string())?;
     if !st.success() && st.code() != Some(1) {
         return Ok(Some((
